@@ -1081,9 +1081,11 @@ open_common(kdump_ctx_t *ctx, void *hdr)
 		goto err_cleanup;
 
 	if (uts_looks_sane(&dh32->utsname))
-		set_uts(ctx, &dh32->utsname);
+		ret = set_uts(ctx, &dh32->utsname);
 	else if (uts_looks_sane(&dh64->utsname))
-		set_uts(ctx, &dh64->utsname);
+		ret = set_uts(ctx, &dh64->utsname);
+	if (ret != KDUMP_OK)
+		goto err_cleanup;
 
 	if (sd.note_sz) {
 		ret = read_notes(ctx, sd.note_off, sd.note_sz);
